@@ -23,11 +23,18 @@ Inductive WFO (t : task) : prog -> Prop :=
 | WFO_write r c v k : (forall x, WFO t (k x)) -> WFO t (Write r c v k)
 | WFO_wto r c v k : (forall x, WFO t (k x)) -> WFO t (WrittenTo r c v k).
 
+(* x occurs in l strictly before (an occurrence of) y *)
+Definition before (x y : node) (l : list node) : Prop := exists l1 l2, l = l1 ++ y :: l2 /\ In x l1.
+Lemma before_in x y l : before x y l -> In x l.
+Proof. intros [l1 [l2 [-> I]]]. apply in_or_app. left. exact I. Qed.
+Lemma before_app x y l d : before x y l -> before x y (l ++ [d]).
+Proof. intros [l1 [l2 [-> I]]]. exists l1, (l2 ++ [d]). split; [rewrite <- app_assoc; reflexivity|exact I]. Qed.
+
 Definition QR (w : world) (a : task) : Prop :=
   (forall b, In (tn b) (kidsT w a) -> (ord b < ord a)%nat) /\
   (forall r dp, row w a (rn r) = Some dp -> is_write (Some dp) = true -> gen r = Some a) /\
   (forall r dp, row w a (rn r) = Some dp -> is_read (Some dp) = true ->
-     gen r = None \/ exists g, gen r = Some g /\ In (tn g) (kidsT w a)).
+     gen r = None \/ exists g, gen r = Some g /\ before (tn g) (rn r) (kidsT w a)).
 Definition Q (w : world) : Prop := forall a, QR w a.
 
 Lemma QR_same w w' a : kidsT w' a = kidsT w a -> (forall d, row w' a d = row w a d) -> QR w a -> QR w' a.
@@ -54,8 +61,9 @@ Proof.
     + rewrite E, R1 in X. inversion X; subst dp'. apply (H2 r (eq_sym E) W).
     + rewrite R2 in X by exact Hne. apply (B r dp' X W).
   - intros r dp' X W. destruct (N.eq_dec (rn r) d) as [E|Hne].
-    + rewrite E, R1 in X. inversion X; subst dp'. destruct (H3 r (eq_sym E) W) as [Y|[g [Y Z]]]; [left; exact Y|right; exists g; split; [exact Y|apply in_or_app; left; exact Z]].
-    + rewrite R2 in X by exact Hne. destruct (C r dp' X W) as [Y|[g [Y Z]]]; [left; exact Y|right; exists g; split; [exact Y|apply in_or_app; left; exact Z]].
+    + rewrite E, R1 in X. inversion X; subst dp'. destruct (H3 r (eq_sym E) W) as [Y|[g [Y Z]]]; [left; exact Y|right; exists g; split; [exact Y|]].
+      exists (kidsT w t), []. split; [rewrite E; reflexivity|exact Z].
+    + rewrite R2 in X by exact Hne. destruct (C r dp' X W) as [Y|[g [Y Z]]]; [left; exact Y|right; exists g; split; [exact Y|apply before_app; exact Z]].
 Qed.
 
 (* ---- the three diagnoses cannot fire ---- *)
@@ -139,7 +147,7 @@ Proof.
     apply existsb_exists in Ex. destruct Ex as [rd [I X]].
     destruct (reader_edge w r rd H I) as [dp [R Rd]].
     destruct (proj2 (proj2 (Hq rd)) r dp R Rd) as [E|[g [E Ig]]]; [congruence|]. rewrite Hg in E. inversion E; subst g.
-    rewrite (cte_edge w rd t H Ig) in X. discriminate.
+    rewrite (cte_edge w rd t H (before_in _ _ _ Ig)) in X. discriminate.
 Qed.
 
 Lemma QR_same_res w w' a : kidsT w' a = kidsT w a -> (forall r, row w' a (rn r) = row w a (rn r)) -> QR w a -> QR w' a.
